@@ -1,12 +1,25 @@
 ---------------------------- MODULE NotifyGen ----------------------------
 EXTENDS Notify, Json
-VARIABLES hist, bad
-HInit == GInit /\ hist = <<>> /\ bad = FALSE
+VARIABLES hist, bad, pre
+
+\* Generation only: what each connection last SAW per characteristic (2 = nothing yet).  An implementation that
+\* remembers what it sent (de-duplication, caching) has exactly this hidden state; putting it into the generation view
+\* makes "one word per transition" cover, e.g., "the value returns to what the last event carried after a change the
+\* connection did not see".
+VARIABLE seen
+SeenInit == seen = [c \in Conn |-> [ch \in Char |-> 2]]
+SeenNext == seen' = [c \in Conn |-> [ch \in Char |->
+                       IF last'[1] \in {"Connect", "Close"} /\ last'[2] = c THEN 2
+                       ELSE IF got'[c] # {} /\ (\E e \in got'[c] : e[1] = ch) THEN (CHOOSE e \in got'[c] : e[1] = ch)[2]
+                       ELSE seen[c][ch]]]
+SeenView == <<open, subs, val, want, seen>>
+
+HInit == GInit /\ SeenInit /\ hist = <<>> /\ bad = FALSE /\ pre = <<>>
 Used(c) == \E i \in 1..Len(hist) : hist[i].c = c
 Rec(l, g) == [a |-> l[1], c |-> IF Len(l) >= 2 THEN l[2] ELSE "none",
               ch |-> IF Len(l) >= 3 THEN l[3] ELSE "none", v |-> IF Len(l) >= 4 THEN l[4] ELSE 0,
               exp |-> [c \in Conn |-> Cardinality(g[c])]]
-HNext == /\ GNext
+HNext == /\ GNext /\ SeenNext /\ pre' = SeenView
          /\ (last'[2] = "c2" => Used("c1")) /\ (last'[2] = "c3" => Used("c2"))
          /\ hist' = Append(hist, Rec(last', got'))
          /\ bad' = (bad \/ ~ExactlyOnceStep)
@@ -15,6 +28,8 @@ WordBound == Len(hist) <= MaxLen
 EmitWord == Len(hist) = MaxLen => PrintT(<<"BEH", ToJson(hist)>>)
 EmitEdge == Len(hist) > 0 => PrintT(<<"BEH", ToJson(hist)>>)
 EdgeView == <<View, last>>
+\* a true transition: the state BEFORE the action (including what each connection last saw) and the action
+SeenEdgeView == <<pre, last>>
 SimLen == 10
 EmitSim == (Len(hist) = SimLen + 1 /\ hist[SimLen + 1].a = "Local" /\ hist[SimLen + 1].ch = "x" /\ hist[SimLen + 1].v = 0)
              => PrintT(<<"BEH", ToJson(SubSeq(hist, 1, SimLen))>>)
